@@ -118,6 +118,10 @@ type imageHasher struct {
 	lastPage    uint32
 }
 
+// upper limit on the number of page hashes to reserve space for before the
+// section contents have actually been seen (256MiB of image)
+const maxReservedPages = 1 << 16
+
 func setupDigester(hash crypto.Hash, header []byte, hvals *peHeaderValues, sections []pe.SectionHeader32, doPageHash bool) *imageHasher {
 	imageDigest := hash.New()
 	imageDigest.Write(header)
@@ -130,6 +134,11 @@ func setupDigester(hash crypto.Hash, header []byte, hvals *peHeaderValues, secti
 		for _, sh := range sections {
 			spage := (sh.SizeOfRawData + hvals.pageSize - 1) / hvals.pageSize
 			pages += int(spage)
+		}
+		// the section sizes are only claims at this point, so don't reserve
+		// more than a sane amount up front; append will grow it as needed
+		if pages > maxReservedPages {
+			pages = maxReservedPages
 		}
 		h.pageHashes = make([]byte, 0, pages*(4+hash.Size()))
 		// the first page is the headers padded out to a full page with the
